@@ -574,7 +574,19 @@ package rewriter
 //@   ensures[closes-with-yield] BLen(children) > 0 && BKind(children, BLen(children) - 1) == kindYield
 //@   modifies BLen(children), BKLen(children), BStmt(children), BKind(children), BChecked(children), BFrozen(children)
 
+// Supported subset (C12), by structural induction over pass 2.  Sup(s) / SupList(l) are abstract; their meaning is the least
+// predicate closed under the `ghost` rules stated in the contracts below (each rule is an instance of the definition at the
+// unit's own arguments): simple statements are supported; a compound statement is supported when its parts are; a statement
+// list is supported when every statement not preceded by a break/continue/fallthrough (dead code) is.  defer, select, labels
+// and bad statements have no rule: a unit that lets one through cannot prove ensures[supported].
+//@ pred IsSimpleKind(s ast.Stmt) := isa(s, ExprStmt) || isa(s, AssignStmt) || isa(s, IncDecStmt) || isa(s, SendStmt) || isa(s, GoStmt)
+//@        || isa(s, DeclStmt) || isa(s, EmptyStmt) || isa(s, BranchStmt) || isa(s, ReturnStmt)
+//@ pred SimpleOrAbsent(s ast.Stmt) := isnil(s) || IsSimpleKind(s)
+//@ pred LiveSup(l []ast.Stmt, from Int) := forall j: Int :: from <= j && j < len(l) && (forall k: Int :: from <= k && k < j ==> !isa(l[k], BranchStmt)) ==> Sup(l[j])
+
 //@ func (r *yieldRewriter) rewriteBlockStmt(body, kind) (res)
+//@   ghost LiveSup(body.List, 0) ==> SupList(body.List)
+//@   ensures[supported] SupList(old(body.List))
 //@   reveal wf-ast
 //@   requires YRCtx(r) && body != nil && StmtList(body.List) && BodyKind(kind)
 //@   ensures[block] fresh(res) && BlockInv(res) && BOwner(res) == kind && Shape(res)
@@ -584,6 +596,7 @@ package rewriter
 
 //@ func (r *yieldRewriter) rewriteStmts(stmts, idx, children)
 //@   reveal wf-ast
+//@   ensures[supported] LiveSup(stmts, idx)
 //@   assume-obligation call[yieldRewriter.rewriteStmt].requires[yield-stmt] because A-yield-stmt
 //@   requires YRCtx(r) && StmtList(stmts) && 0 <= idx && children != nil && Ready(children) && BodyKind(BOwner(children))
 //@   ensures[inv] BlockInv(children) && BOwner(children) == old(BOwner(children)) && Shape(children)
@@ -594,6 +607,11 @@ package rewriter
 
 //@ func (r *yieldRewriter) rewriteStmt(stmt, isLast, children) (res)
 //@   reveal wf-ast
+//@   ghost IsSimpleKind(stmt) ==> Sup(stmt)
+//@   ghost isa(stmt, BlockStmt) && SupList(as(stmt, BlockStmt).List) ==> Sup(stmt)
+//@   ghost isa(stmt, RangeStmt) && SupList(as(stmt, RangeStmt).Body.List) ==> Sup(stmt)      -- a range left native by pass 1 (D22)
+//@   ensures[supported] Sup(stmt)
+//@   ensures[nil-means-last-or-branch] res == nil && !isLast ==> isa(stmt, BranchStmt)
 //@   requires YRCtx(r) && ProperStmt(stmt) && children != nil && Ready(children) && BodyKind(BOwner(children))
 //@   requires isa(stmt, BlockStmt) ==> StmtList(as(stmt, BlockStmt).List)
 //@   requires[yield-stmt] isa(stmt, ExprStmt) && HasYield(stmt) ==> IsCallStmtOf(stmt, r.rewriter.yieldFunc)
@@ -613,6 +631,7 @@ package rewriter
 //@   requires YRCtx(r) && (children != nil ==> BlockInv(children) && ATBL(children))
 //@   ensures[same] res == children || res == nil
 //@   ensures[nil] res == nil && children != nil ==> EndsOK(children) && BOwner(children) == kindFor
+//@   ensures[nil-only-last] res == nil && children != nil ==> isLast
 //@   ensures[inv] children != nil ==> BlockInv(children) && BOwner(children) == old(BOwner(children)) && (res != nil ==> ATBL(children)) && Shape(children)
 //@   ensures[untouched] res != nil ==> BLen(children) == old(BLen(children)) && BFrozen(children) == old(BFrozen(children)) && BChecked(children) == old(BChecked(children))
 //@        && (forall j: Int :: 0 <= j && j < BLen(children) ==> BKind(children, j) == old(BKind(children, j)) && BStmt(children, j) == old(BStmt(children, j)))
@@ -621,6 +640,9 @@ package rewriter
 
 //@ func (r *yieldRewriter) rewriteIfStmt(stmt, children)
 //@   reveal wf-ast
+//@   ghost isa(stmt.Else, BlockStmt) && SupList(as(stmt.Else, BlockStmt).List) ==> Sup(stmt.Else)
+//@   ghost SupList(stmt.Body.List) && SimpleOrAbsent(stmt.Init) && (isnil(stmt.Else) || Sup(stmt.Else)) ==> Sup(iface(stmt, IfStmt))
+//@   ensures[supported] Sup(iface(stmt, IfStmt))
 //@   requires YRCtx(r) && stmt != nil && children != nil && Ready(children) && BodyKind(BOwner(children))
 //@   ensures[pushed] BlockInv(children) && ATBL(children) && BLen(children) == old(BLen(children)) + 1 && !BFrozen(children)
 //@        && (BKind(children, BLen(children) - 1) == kindTrival || BKind(children, BLen(children) - 1) == kindIf)
@@ -633,6 +655,13 @@ package rewriter
 
 //@ func (r *yieldRewriter) rewriteSwitchStmt(stmt, init, x, body, pos, children) (res)
 //@   reveal wf-ast
+//@   -- SupCases(l, n): the bodies of the first n clauses of l are supported (rules: base, step, and the switch statement itself)
+//@   ghost SupCases(body.List, 0)
+//@   ghost forall i: Int :: 0 <= i && i < len(body.List) && SupCases(body.List, i) && SupList(as(body.List[i], CaseClause).Body) ==> SupCases(body.List, i + 1)
+//@   ghost SupCases(body.List, len(body.List)) && SimpleOrAbsent(deref(init)) ==> Sup(stmt)
+//@   loop #0 invariant same(cases, nil) || fresh(cases)      -- the accumulator never shares storage with the tree
+//@   loop #0 invariant SupCases(body.List, _idx)
+//@   ensures[supported] Sup(stmt)
 //@   assume-obligation call[yieldRewriter.rewriteStmt].requires[yield-stmt] because A-yield-stmt
 //@   requires YRCtx(r) && !isnil(stmt) && init != nil && pos != nil && body != nil && CaseList(body.List)
 //@   requires children != nil && Ready(children) && BodyKind(BOwner(children))
@@ -653,6 +682,8 @@ package rewriter
 
 //@ func (r *yieldRewriter) rewriteForStmt(stmt, children) (res)
 //@   reveal wf-ast
+//@   ghost SupList(stmt.Body.List) && SimpleOrAbsent(stmt.Init) && SimpleOrAbsent(stmt.Post) ==> Sup(iface(stmt, ForStmt))
+//@   ensures[supported] Sup(iface(stmt, ForStmt))
 //@   assume-obligation call[yieldRewriter.rewriteStmt].requires[yield-stmt] because A-yield-stmt
 //@   requires YRCtx(r) && stmt != nil && children != nil && Ready(children) && BodyKind(BOwner(children))
 //@   requires WfStmt(stmt.Init) && WfStmt(stmt.Post) && WfExpr(stmt.Cond)
@@ -765,6 +796,14 @@ package rewriter
 //@   ensures o == calleeOf(call)
 //@ extern (*matcher.MatchCtx).TypeOf(ctx, e) (t)
 //@   ensures t == typeOfExpr(e)
+// import cleaning is delegated to the go-imports dependency (assumed: it drops unused named imports only; blank, dot and used imports stay)
+//@ extern imports.Clean(l, f)
+//@   ensures W == importsCleaned(ptr(f), old(W))
+//@   modifies W
+//@ func (o *optimizer) optimizeImports(f)
+//@   ensures[delegates] W == importsCleaned(ptr(f), old(W))      -- C13: side-effect imports of a processed file survive
+//@   modifies W
+
 //@ pred EtaShape(lit *ast.FuncLit) := lit != nil && lit.Body != nil && len(lit.Body.List) == 1 && isa(lit.Body.List[0], ReturnStmt) && !isnil(lit.Body.List[0])
 //@        && len(as(lit.Body.List[0], ReturnStmt).Results) == 1 && isa(as(lit.Body.List[0], ReturnStmt).Results[0], CallExpr)
 //@        && !isnil(as(lit.Body.List[0], ReturnStmt).Results[0])
@@ -831,7 +870,6 @@ package rewriter
 //@   ensures[local:body-in-thunk] IsDelayOf(as(as(r.funcBody.List[0], ReturnStmt).Results[0], CallExpr).Args[0], following.block)
 //@   ensures[local:thunk-closed] EndsOK(following)
 //@   modifies r.funcBody.List, AST
-
 
 // ---------------------------------------------------------------- pass 0: returns and := initialisers, only inside generator functions (C01, C13)
 
